@@ -21,10 +21,10 @@ PY = sys.executable
 
 # runs per tier (fixed, so that a VERIF_SEED explores the same seeds anywhere)
 BUDGET = {
-    "C10": {"quick": 24000, "thorough": 400000},
-    "C13": {"quick": 6000, "thorough": 120000},
-    "C14": {"quick": 24000, "thorough": 400000},
-    "C15": {"quick": 4000, "thorough": 80000},
+    "C10": {"quick": 36000, "thorough": 600000},
+    "C13": {"quick": 16000, "thorough": 300000},
+    "C14": {"quick": 36000, "thorough": 600000},
+    "C15": {"quick": 16000, "thorough": 300000},
 }
 SELFTEST = {"quick": 64, "thorough": 2000}
 SHRINK_PER_WORKER = 4
